@@ -212,13 +212,22 @@ Lemma pinfix_S n f l p : pinfix upd (S n) f l p =
   match f with
   | IInfix => let t := cur p in bind (pexpr upd n (prec (ty t)) (next p)) (fun '(r, p) => Some (EInfix t l r, p))
   | ICall => let t := cur p in bind (pargs upd n p) (fun '(a, p) => Some (ECall t l a, p))
-  | IIndex => let t := cur p in let p := next p in let idx := EIdent (cur p) in
-              if tt_beq (ty t) DOT then Some (EIndex t l idx, p)
-              else let '(ok, p) := expect_peek p RBRACKET in Some (if ok then EIndex t l idx else ENil, p)
-  | IBetween => let t := cur p in let p := next p in let lo := EIdent (cur p) in
-                let '(ok, p) := expect_peek p AND in
-                if ok then let p := next p in Some (EBetween t l lo (EIdent (cur p)), p) else Some (ENil, p)
-  | IIn => let p := next p in let t := cur p in bind (pargs upd n p) (fun '(a, p) => Some (EIn t l a, p))
+  | IIndex => let t := cur p in
+              let '(ok0, p) := expect_peek p IDENT in
+              if negb ok0 then Some (ENil, p)
+              else let idx := EIdent (cur p) in
+                   if tt_beq (ty t) DOT then Some (EIndex t l idx, p)
+                   else let '(ok, p) := expect_peek p RBRACKET in Some (if ok then EIndex t l idx else ENil, p)
+  | IBetween => let t := cur p in
+                let '(ok0, p) := expect_peek p IDENT in
+                if negb ok0 then Some (ENil, p)
+                else let lo := EIdent (cur p) in
+                     let '(ok, p) := expect_peek p AND in
+                     if negb ok then Some (ENil, p)
+                     else let '(ok2, p) := expect_peek p IDENT in
+                          if ok2 then Some (EBetween t l lo (EIdent (cur p)), p) else Some (ENil, p)
+  | IIn => let '(ok, p) := expect_peek p LPAREN in
+           if ok then let t := cur p in bind (pargs upd n p) (fun '(a, p) => Some (EIn t l a, p)) else Some (ENil, p)
   end.
 Proof. reflexivity. Qed.
 
@@ -255,8 +264,8 @@ Lemma pactions_more_S n t acc p : pactions_more upd (S n) t acc p =
     let p := next p in let t' := cur p in
     bind (pactions upd n t' p) (fun '(other, p) =>
       match other with
-      | Some l => pactions_more upd n t (acc ++ l) p
-      | None => pactions_more upd n t acc p
+      | Some ((_ :: _) as l) => pactions_more upd n t (acc ++ l) p
+      | _ => pactions_more upd n t acc (add_err p)
       end)
   else Some (acc, p).
 Proof. reflexivity. Qed.
@@ -304,14 +313,21 @@ Proof.
       intros f l p I Hn. rewrite pinfix_S. cbv zeta. pose proof (next_mu_le p) as Mn. pose proof (next_inv p I) as In.
       destruct f.
       * destruct (E (prec (ty (cur p))) (next p) In ltac:(lia)) as [r [p1 [-> [I1 M1]]]]. cbn [bind]. apply ok_here; auto; lia.
-      * destruct (tt_beq (ty (cur p)) DOT); [apply ok_here; auto|].
-        pose proof (expect_peek_ok (next p) RBRACKET In) as [I2 M2]. destruct (expect_peek (next p) RBRACKET) as [ok1 p2]; cbn [snd] in *.
+      * pose proof (expect_peek_ok p IDENT I) as [I0 M0]. destruct (expect_peek p IDENT) as [ok0 p0]; cbn [snd negb] in *.
+        destruct ok0; cbn [negb]; [|apply ok_here; auto].
+        destruct (tt_beq (ty (cur p)) DOT); [apply ok_here; auto|].
+        pose proof (expect_peek_ok p0 RBRACKET I0) as [I2 M2]. destruct (expect_peek p0 RBRACKET) as [ok1 p2]; cbn [snd] in *.
         apply ok_here; auto; lia.
-      * pose proof (expect_peek_ok (next p) AND In) as [I2 M2]. destruct (expect_peek (next p) AND) as [ok1 p2]; cbn [snd] in *.
-        destruct ok1; [|apply ok_here; auto; lia].
-        apply ok_here; [now apply next_inv|]. pose proof (next_mu_le p2). lia.
+      * pose proof (expect_peek_ok p IDENT I) as [I0 M0]. destruct (expect_peek p IDENT) as [ok0 p0]; cbn [snd negb] in *.
+        destruct ok0; cbn [negb]; [|apply ok_here; auto].
+        pose proof (expect_peek_ok p0 AND I0) as [I2 M2]. destruct (expect_peek p0 AND) as [ok1 p2]; cbn [snd] in *.
+        destruct ok1; cbn [negb]; [|apply ok_here; auto; lia].
+        pose proof (expect_peek_ok p2 IDENT I2) as [I3 M3]. destruct (expect_peek p2 IDENT) as [ok2 p3]; cbn [snd] in *.
+        destruct ok2; apply ok_here; auto; lia.
       * destruct (Ag p I ltac:(lia)) as [r [p1 [-> [I1 M1]]]]. cbn [bind]. apply ok_here; auto.
-      * destruct (Ag (next p) In ltac:(lia)) as [r [p1 [-> [I1 M1]]]]. cbn [bind]. apply ok_here; auto; lia.
+      * pose proof (expect_peek_ok p LPAREN I) as [I0 M0]. destruct (expect_peek p LPAREN) as [ok0 p0]; cbn [snd] in *.
+        destruct ok0; [|apply ok_here; auto].
+        destruct (Ag p0 I0 ltac:(lia)) as [r [p1 [-> [I1 M1]]]]. cbn [bind]. apply ok_here; auto; lia.
     + (* pargs *)
       intros p I Hn. rewrite pargs_S. cbv zeta. pose proof (next_mu_le p) as Mn. pose proof (next_inv p I) as In.
       destruct (peek_is p RPAREN); [apply ok_here; auto|].
@@ -355,9 +371,10 @@ Proof.
         { repeat (apply orb_true_iff in Pk as [Pk|Pk]); apply peek_is_true in Pk; rewrite Pk; discriminate. }
         pose proof (next_mu_lt p I Cp) as Mn. pose proof (next_inv p I) as In.
         destruct (As (cur (next p)) (next p) In ltac:(lia)) as [other [p1 [-> [I1 M1]]]]. cbn [bind].
-        destruct other as [l|].
-        -- destruct (Asm t (acc ++ l) p1 I1 ltac:(lia)) as [es [p2 [-> [I2 M2]]]]. apply ok_here; auto; lia.
-        -- destruct (Asm t acc p1 I1 ltac:(lia)) as [es [p2 [-> [I2 M2]]]]. apply ok_here; auto; lia.
+        destruct other as [[|a0 l0]|].
+        -- destruct (Asm t acc (add_err p1) I1 ltac:(rewrite add_err_mu; lia)) as [es [p2 [-> [I2 M2]]]]. rewrite add_err_mu in M2. apply ok_here; auto; lia.
+        -- destruct (Asm t (acc ++ a0 :: l0) p1 I1 ltac:(lia)) as [es [p2 [-> [I2 M2]]]]. apply ok_here; auto; lia.
+        -- destruct (Asm t acc (add_err p1) I1 ltac:(rewrite add_err_mu; lia)) as [es [p2 [-> [I2 M2]]]]. rewrite add_err_mu in M2. apply ok_here; auto; lia.
 Qed.
 
 End Fuel.
